@@ -381,7 +381,8 @@ def run(ctx) -> None:
                          "limit": 16, "budget": None, "processes": [1], "offset": -1e6})
         ctx.count("full_length_runs_on_offset_games")
     i = 0
-    while not ctx.out_of_time(10.0):
+    # quick tier: a fixed number of configurations (so that the amount of work does not depend on the speed of the machine)
+    while i < (12 if quick else 10**9) and not ctx.out_of_time(10.0):
         i += 1
         solver = ["greedy", "largest", "random", "greedy_worst"][i % 4]
         g = rng.choice(CONTINUOUS if rng.random() < 0.65 else DISCRETE)
